@@ -443,7 +443,7 @@ impl Watch {
                 }
             } else if unchanged {
                 if !connected {
-                    self.flag(&["C06", "C08"], "accepted-neither-sent-nor-stored", format!("{what}: accepted without error while not connected, but neither sent nor stored"));
+                    self.flag(&["C06", "C08", "C11"], "accepted-neither-sent-nor-stored", format!("{what}: accepted without error while not connected, but neither sent nor stored"));
                     return false;
                 }
                 if self.m.persistent {
@@ -589,7 +589,10 @@ impl Watch {
         if !same {
             let a: Vec<String> = actual.iter().map(|p| p.short()).collect();
             let b: Vec<String> = expect.iter().map(|p| p.short()).collect();
-            self.flag(&["C06", "C16"], "resume-retransmission", format!("{}: re-sent {:?} but the store holds {:?}", ctx.what, a, b));
+            // an oversize packet among the re-sent ones is C14's business as well
+            let over = limit.map_or(false, |l| actual.iter().any(|p| wire::encode(p, self.idw).len() > l as usize));
+            let props: &[&'static str] = if over { &["C06", "C16", "C14"] } else { &["C06", "C16"] };
+            self.flag(props, "resume-retransmission", format!("{}: re-sent {:?} but the store holds {:?}", ctx.what, a, b));
             return;
         }
         if !expect.is_empty() {
